@@ -893,6 +893,11 @@ class Font(BaseObject):
                 self.lib.dirty = True
                 if formatVersion > UFOFormatVersion.FORMAT_1_0:
                     self.features.dirty = True
+            # a UFO below format 3 stores one layer and neither images nor
+            # data. once saved, this font reads from the new UFO, so read
+            # whatever has not been read yet while it is still there.
+            if formatVersion < UFOFormatVersion.FORMAT_3_0:
+                self._loadDataNotStoredBelowFormatVersion3()
             # set the kerning group remap if necessary
             if formatVersion < UFOFormatVersion.FORMAT_3_0 and self._kerningGroupConversionRenameMaps is not None:
                 writer.setKerningGroupConversionRenameMaps(self._kerningGroupConversionRenameMaps)
@@ -929,6 +934,18 @@ class Font(BaseObject):
         self._ufoFileStructure = writer.fileStructure
         self.dirty = False
         self.layers._fontSaveWasCompleted()
+
+    def _loadDataNotStoredBelowFormatVersion3(self):
+        defaultLayer = self.layers.defaultLayer
+        for layer in self.layers:
+            if layer == defaultLayer:
+                continue
+            for glyph in layer:
+                pass
+        for fileName in self.images.fileNames:
+            self.images[fileName]
+        for fileName in self.data.fileNames:
+            self.data[fileName]
 
     def _saveInfo(self, writer, saveAs=False, progressBar=None):
         # info should always be saved
